@@ -30,6 +30,7 @@ pub(crate) broadcast proof fn lemma_grows_add(a: Seq<Ev>, c: Seq<Ev>)
 #[verifier::opaque]
 pub(crate) open spec fn appended(old_log: Seq<Ev>, new_log: Seq<Ev>, bin_allowed: bool, brk: Seq<Ev>, ev: Ev) -> bool {
     let n = new_log.len() - old_log.len() - brk.len() - 1;
+    &&& new_log.len() >= old_log.len() && new_log.subrange(0, old_log.len() as int) =~= old_log
     &&& (n == 0 || (n == 1 && bin_allowed && new_log[old_log.len() as int] is Binary))
     &&& new_log[new_log.len() - 1] == ev
     &&& (brk.len() == 1 ==> new_log[new_log.len() - 2] == brk[0])
@@ -78,4 +79,115 @@ pub(crate) proof fn lemma_delivered_from(log: Seq<Ev>, f1: int, f2: int, off: in
     reveal(delivered);
     let k = choose|k: int| 0 <= f2 <= k < log.len() && (#[trigger] log[k] matches Ev::Matched { off: o, .. } && o == off);
     assert(0 <= f1 <= k < log.len() && (log[k] matches Ev::Matched { off: o, .. } && o == off));
+}
+
+
+// ---- the log without binary notices (a notice may be interleaved once, in the slice strategies)
+/// `l` with every Binary notice removed
+pub(crate) open spec fn nb(l: Seq<Ev>) -> Seq<Ev>
+    decreases l.len(),
+{
+    if l.len() == 0 {
+        l
+    } else if l.last() is Binary {
+        nb(l.drop_last())
+    } else {
+        nb(l.drop_last()).push(l.last())
+    }
+}
+
+pub(crate) proof fn lemma_nb_add(a: Seq<Ev>, b: Seq<Ev>)
+    ensures nb(a + b) == nb(a) + nb(b),
+    decreases b.len(),
+{
+    if b.len() == 0 {
+        assert(a + b =~= a);
+        assert(nb(a) + nb(b) =~= nb(a));
+    } else {
+        lemma_nb_add(a, b.drop_last());
+        assert((a + b).drop_last() =~= a + b.drop_last());
+        assert((a + b).last() == b.last());
+        if !(b.last() is Binary) {
+            assert(nb(a) + nb(b.drop_last()).push(b.last()) =~= (nb(a) + nb(b.drop_last())).push(b.last()));
+        }
+    }
+}
+
+pub(crate) proof fn lemma_nb_no_binary(a: Seq<Ev>)
+    requires forall|i: int| 0 <= i < a.len() ==> !(#[trigger] a[i] is Binary),
+    ensures nb(a) == a,
+    decreases a.len(),
+{
+    if a.len() > 0 {
+        lemma_nb_no_binary(a.drop_last());
+        assert(a.drop_last().push(a.last()) =~= a);
+    }
+}
+
+/// what was appended to the log since it had length n
+pub(crate) open spec fn since(log: Seq<Ev>, n: int) -> Seq<Ev> { log.subrange(n, log.len() as int) }
+
+pub(crate) proof fn lemma_since_split(log: Seq<Ev>, n: int, m: int)
+    requires 0 <= n <= m <= log.len(),
+    ensures since(log, n) == log.subrange(n, m) + since(log, m),
+{
+    assert(since(log, n) =~= log.subrange(n, m) + since(log, m));
+}
+
+/// appended(..) in sequence form: what was appended, binary notice removed, is brk ++ [ev]
+pub(crate) proof fn lemma_appended_nb(old_log: Seq<Ev>, new_log: Seq<Ev>, bin: bool, brk: Seq<Ev>, ev: Ev)
+    requires
+        appended(old_log, new_log, bin, brk, ev), old_log.len() <= new_log.len(),
+        !(ev is Binary), forall|i: int| 0 <= i < brk.len() ==> !(#[trigger] brk[i] is Binary),
+    ensures nb(since(new_log, old_log.len() as int)) == brk + seq![ev],
+{
+    reveal(appended);
+    let d = since(new_log, old_log.len() as int);
+    let n = new_log.len() - old_log.len() - brk.len() - 1;
+    let want = brk + seq![ev];
+    if n == 0 {
+        assert(d =~= want);
+        lemma_nb_no_binary(want);
+    } else {
+        let b = seq![new_log[old_log.len() as int]];
+        assert(d =~= b + want);
+        lemma_nb_add(b, want);
+        lemma_nb_no_binary(want);
+        assert(b.drop_last() =~= Seq::<Ev>::empty());
+        assert(b.last() is Binary);
+        reveal_with_fuel(nb, 3);
+        assert(nb(b.drop_last()) =~= Seq::<Ev>::empty());
+        assert(nb(b) =~= Seq::<Ev>::empty());
+        assert(nb(b) + nb(want) =~= want);
+    }
+}
+
+
+/// appended(..) relative to an earlier point n0 of the log
+pub(crate) proof fn lemma_appended_since(old_log: Seq<Ev>, new_log: Seq<Ev>, bin: bool, brk: Seq<Ev>, ev: Ev, n0: int)
+    requires
+        appended(old_log, new_log, bin, brk, ev), 0 <= n0 <= old_log.len(),
+        !(ev is Binary), forall|i: int| 0 <= i < brk.len() ==> !(#[trigger] brk[i] is Binary),
+    ensures nb(since(new_log, n0)) == nb(since(old_log, n0)) + brk + seq![ev],
+{
+    assert(old_log.len() <= new_log.len() && new_log.subrange(0, old_log.len() as int) =~= old_log) by { reveal(appended); }
+    lemma_appended_nb(old_log, new_log, bin, brk, ev);
+    lemma_since_split(new_log, n0, old_log.len() as int);
+    assert(new_log.subrange(n0, old_log.len() as int) =~= since(old_log, n0)) by {
+        assert forall|i: int| 0 <= i < old_log.len() - n0 implies new_log.subrange(n0, old_log.len() as int)[i] == since(old_log, n0)[i] by {
+            assert(new_log.subrange(0, old_log.len() as int)[n0 + i] == old_log[n0 + i]);
+        }
+    }
+    lemma_nb_add(since(old_log, n0), since(new_log, old_log.len() as int));
+    assert(nb(since(old_log, n0)) + (brk + seq![ev]) =~= nb(since(old_log, n0)) + brk + seq![ev]);
+}
+
+/// a pure prefix-preserving extension by `add` (no binary notice in it)
+pub(crate) proof fn lemma_since_add(old_log: Seq<Ev>, add: Seq<Ev>, n0: int)
+    requires 0 <= n0 <= old_log.len(), forall|i: int| 0 <= i < add.len() ==> !(#[trigger] add[i] is Binary),
+    ensures nb(since(old_log + add, n0)) == nb(since(old_log, n0)) + add,
+{
+    assert(since(old_log + add, n0) =~= since(old_log, n0) + add);
+    lemma_nb_add(since(old_log, n0), add);
+    lemma_nb_no_binary(add);
 }
